@@ -75,6 +75,9 @@ func certProblem(cert *tls.Certificate, host string, now time.Time) string {
 	if _, err := leaf.Verify(x509.VerifyOptions{Roots: caPool, CurrentTime: now, DNSName: host, KeyUsages: []x509.ExtKeyUsage{x509.ExtKeyUsageServerAuth}}); err != nil {
 		return "does not verify for " + host + ": " + err.Error()
 	}
+	if n := len(leaf.DNSNames) + len(leaf.IPAddresses) + len(leaf.URIs) + len(leaf.EmailAddresses); n != 1 {
+		return fmt.Sprintf("names %d subjects (DNS %v, IP %v), not exactly %s", n, leaf.DNSNames, leaf.IPAddresses, host)
+	}
 	pub, ok := leaf.PublicKey.(*ecdsa.PublicKey)
 	priv, ok2 := cert.PrivateKey.(*ecdsa.PrivateKey)
 	if !ok || !ok2 || !pub.Equal(&priv.PublicKey) {
@@ -163,32 +166,51 @@ func scenarioHistories(c *vrun.Ctx) {
 	}
 }
 
-// scenarioSched: concurrent first requests for one host (and one for an expired entry).
+// scenarioSched: concurrent first requests for one host, and for different hosts (whatever the
+// issuing code shares between two certificates under construction must not leak from one into
+// the other: each certificate names exactly the host it was requested for).
 func scenarioSched(c *vrun.Ctx) {
-	for _, nthreads := range []int{2, 3} {
-		if nthreads == 4 {
-			continue
+	type variant struct {
+		nthreads int
+		distinct bool
+	}
+	for _, v := range []variant{{2, false}, {3, false}, {2, true}, {3, true}} {
+		nthreads := v.nthreads
+		hostOf := func(i int) string {
+			if !v.distinct {
+				return "new-host.test"
+			}
+			if i == 2 {
+				return "10.1.2.3" // an IP-address host among DNS names
+			}
+			return "host-" + strconv.Itoa(i+1) + ".test"
 		}
 		var got []*tls.Certificate
 		var errs []error
-		var final [2]*tls.Certificate
+		var final [][2]*tls.Certificate
 		var now time.Time
 		name := "concurrent-first-requests/" + strconv.Itoa(nthreads)
+		if v.distinct {
+			name = "concurrent-first-requests-different-hosts/" + strconv.Itoa(nthreads)
+		}
 		body := func() {
 			vtime.Reset()
 			ca := newCA()
 			got = make([]*tls.Certificate, nthreads)
 			errs = make([]error, nthreads)
+			final = make([][2]*tls.Certificate, nthreads)
 			for i := 0; i < nthreads; i++ {
 				i := i
 				vsched.GoHarness("T"+strconv.Itoa(i+1), func() {
-					got[i], errs[i] = ca.GetCertForHost("new-host.test:443")
+					got[i], errs[i] = ca.GetCertForHost(hostOf(i) + ":443")
 				})
 			}
 			vsched.JoinHarness()
 			now = vtime.Peek()
-			final[0], _ = ca.GetCertForHost("new-host.test:443")
-			final[1], _ = ca.GetCertForHost("new-host.test:8443")
+			for i := 0; i < nthreads; i++ {
+				final[i][0], _ = ca.GetCertForHost(hostOf(i) + ":443")
+				final[i][1], _ = ca.GetCertForHost(hostOf(i) + ":8443")
+			}
 		}
 		c.Explore(vrun.ExploreOpts{Name: name, K: -1, E: -1, Prop: "C11", Body: body, Check: func(x *vsched.Exec) {
 			distinct := map[*tls.Certificate]bool{}
@@ -197,13 +219,17 @@ func scenarioSched(c *vrun.Ctx) {
 					c.Violation("C11/sched/error", "GetCertForHost failed: "+errs[i].Error(), x)
 					continue
 				}
-				if prob := certProblem(got[i], "new-host.test", now); prob != "" {
-					c.Violation("C11/sched/invalid-certificate", "thread "+strconv.Itoa(i+1)+": certificate "+prob, x)
+				if prob := certProblem(got[i], hostOf(i), now); prob != "" {
+					c.Violation("C11/sched/invalid-certificate", "thread "+strconv.Itoa(i+1)+" asked for "+hostOf(i)+": certificate "+prob, x)
 				}
 				distinct[got[i]] = true
 			}
-			if final[0] != final[1] || !distinct[final[0]] {
-				c.Violation("C11/sched/unstable-after-quiescence", "after all requests returned, repeated requests do not return one stable certificate out of the issued ones", x)
+			for i := range final {
+				if final[i][0] != final[i][1] || !distinct[final[i][0]] {
+					c.Violation("C11/sched/unstable-after-quiescence", "after all requests returned, repeated requests for "+hostOf(i)+" do not return one stable certificate out of the issued ones", x)
+				} else if prob := certProblem(final[i][0], hostOf(i), now); prob != "" {
+					c.Violation("C11/sched/invalid-certificate", "the certificate cached for "+hostOf(i)+" "+prob, x)
+				}
 			}
 			c.Outcome(name + ":" + strconv.Itoa(len(distinct)))
 		}})
